@@ -69,7 +69,8 @@ def impl(case):
     A = build(case["A"], name)
     out = {"bitsA": bits(A, run_all(A, dag))}
     if k in ("product", "union"):
-        B = build(case["B"], name)
+        # "same_object": the operand is the automaton itself (A.read_product(A))
+        B = A if case.get("same_object") else build(case["B"], name)
         out["bitsB"] = bits(B, run_all(B, dag))
     if k == "reduce":
         A.reduce()
